@@ -3874,11 +3874,14 @@ func (s *ImmuStore) TruncateUptoTx(minTxID uint64) error {
 				merr.Append(err)
 				continue
 			}
-			defer s.releaseVLog(vLogID)
 
 			s.logger.Infof("truncating vlog '%d' at offset '%d'", vLogID, offset)
 			err = vlog.DiscardUpto(offset)
 			merr.Append(err)
+
+			// released right away: holding the value logs taken so far while waiting for the next one
+			// makes concurrent calls, which take them in another order, wait for each other forever
+			s.releaseVLog(vLogID)
 		}
 	}
 
